@@ -203,6 +203,32 @@ func bessel_i_small_z_series_log(v, x float64) float64 {
 
 /* -------------------------------------------------------------------------- */
 
+// log I_v(x) for x <= bessel_i_tiny_x, see bessel_i_tiny_x_imp; the second
+// term of the series is kept since it is the leading one if v log(x/2) ~ 0
+func bessel_i_tiny_x_log(v, x float64) float64 {
+  if v < 0.0 && math.Floor(v) == v {
+    v = -v                                   // I_{-n} = I_n
+  }
+  lg, sign := math.Lgamma(v + 1.0)
+  if sign < 0 {
+    return math.NaN()                        // I_v(x) < 0
+  }
+  // log I ~ 0 for small |v|: evaluate log Gamma(v+1) without the rounding
+  // error of v+1
+  if v >= 0.0 && v <= 0.5 {
+    lg = lgamma_small_imp(v + 1.0, v, v - 1.0)
+  } else
+  if v <  0.0 && v > -0.5 {
+    lg = lgamma_small_imp(v + 2.0, v + 1.0, v) - math.Log1p(v)
+  }
+  // log(x/2), math.Log is not reliable for subnormal x
+  f, e := math.Frexp(x)
+  lx   := math.Log(f) + float64(e-1)*math.Ln2
+  return v*lx - lg + math.Log1p(x*x/(4.0*(v + 1.0)))
+}
+
+/* -------------------------------------------------------------------------- */
+
 func asymptotic_bessel_i_large_x_log(v, x float64) float64 {
   s     := 1.0
   mu    := 4.0 * v * v
@@ -479,6 +505,9 @@ func bessel_i_log(v, x float64) float64 {
     } else {
       return math.Inf(-1)
     }
+  }
+  if x <= bessel_i_tiny_x {
+    return bessel_i_tiny_x_log(v, x)
   }
   if v == 0.5 {
     // common special case, note try and avoid overflow in exp(x):
